@@ -32,10 +32,28 @@ impl<K, V, const N: usize> Map<K, V, N> {
     #[inline]
     #[must_use]
     pub const fn new() -> Self {
+        #[cfg(feature = "verif_hooks")]
+        if true {
+            return Self::verif_new_poisoned();
+        }
         Self {
             len: 0,
             pairs: [const { MaybeUninit::uninit() }; N],
         }
+    }
+
+    /// Verification hook: like [`new()`][`Map::new`], but every byte of the
+    /// (still logically uninitialised) slot storage holds `0xA5`, so that a
+    /// harness can recognise a never-initialised slot that is treated as live.
+    #[cfg(feature = "verif_hooks")]
+    #[inline]
+    const fn verif_new_poisoned() -> Self {
+        let mut m = Self {
+            len: 0,
+            pairs: [const { MaybeUninit::uninit() }; N],
+        };
+        unsafe { core::ptr::write_bytes(m.pairs.as_mut_ptr(), 0xA5, N) };
+        m
     }
 
     /// Creates an empty [Map] with fixed capacity.
